@@ -196,7 +196,9 @@ def vu_state(h, rng, tier, cls=None):
     ity = rng.choice(["i", "s"])
     maxk = rng.choice([1, 2, 3, 4, 6, 8] if tier == "quick" else [1, 2, 3, 5, 8, 12, 20])
     kind = "vu:%s" % ity
-    cls = cls or rng.choice(["empty", "empty-input", "exact", "sampling-one", "marks", "marks", "mixed-k", "many"])
+    cls = cls or rng.choice(["empty", "empty-input", "exact", "sampling-one", "marks", "marks", "marks-wide", "mixed-k", "many"])
+    if cls == "marks-wide":
+        maxk = rng.choice([24, 40, 64])      # a gadget whose H region spans several bytes of the packed mark bits
     u = h.slot(); h.add("new %d %s %d" % (u, kind, maxk))
 
     def inp(c, k=None):
@@ -213,6 +215,15 @@ def vu_state(h, rng, tier, cls=None):
         # sampling inputs whose R items are heavy for the gadget: they stay in H, marked
         inp(rng.choice(["sampling", "all-equal"]), k=max(1, maxk // 2) if rng.random() < 0.5 else maxk)
         inp(rng.choice(["warmup", "single", "sampling"]), k=rng.choice([maxk, maxk + 2]))
+    elif cls == "marks-wide":
+        # small sampling inputs (their R items are heavy for the large gadget and stay in H, marked) alternating with exact inputs
+        # (unmarked): marked and unmarked H items more than 8 slots apart, in either order
+        order = rng.choice([["s", "e"], ["e", "s"], ["s", "e", "s", "e"], ["s", "s", "e"]])
+        for o in order:
+            if o == "s":
+                inp(rng.choice(["all-equal", "sampling"]), k=rng.choice([4, 8, 9]))
+            else:
+                inp("exact-full", k=rng.choice([9, 12, 17]))
     elif cls == "mixed-k":
         for _ in range(rng.choice([2, 3])):
             inp(rng.choice(["warmup", "sampling", "heavy-mix", "all-equal", "exact-full"]), k=rng.choice([1, 2, maxk, maxk + 1, 2 * maxk]))
@@ -273,7 +284,7 @@ CLASSES = {
     "countmin": ["empty", "single", "some", "merge", "zero"],
     "fi": ["empty", "single", "few", "purged", "merged"],
     "varopt": ["empty", "single", "warmup", "exact-full", "first-sampling", "sampling", "heavy-mix", "all-equal"],
-    "vunion": ["empty", "empty-input", "exact", "sampling-one", "marks", "mixed-k", "many"],
+    "vunion": ["empty", "empty-input", "exact", "sampling-one", "marks", "marks-wide", "mixed-k", "many"],
     "ebpps": ["empty", "single", "under-k-equal", "equal", "unequal", "merged"],
 }
 
